@@ -94,7 +94,7 @@ def lemma_jobs(N, excl, onl, names=None, heavyN=None, deep=0, hexN=6):
     return jobs
 
 
-def shaped_jobs(tier, excl, onl):
+def shaped_jobs(tier, excl, onl, term=False):
     """flag-group lemma on text with a skeleton: free text + opener + free text [+ ")"] + free text (representative alphabet)"""
     if tier == 'quick':
         openers, lens = (0, 2, 3, 4, 5), ((1, 1, 1),)
@@ -107,8 +107,10 @@ def shaped_jobs(tier, excl, onl):
                 hooks = dict(HOOKS, max_findall=2)
                 if onl:
                     hooks['only_obligations'] = onl
-                jobs.append(('regex/operators.VerifC02FlagGroupsShaped', dict(fixlen={'p': a, 'b': b, 'q': c}, params={'opener': opn, 'close': cl}, unwind=60,
-                                                                             unwind_by_func={'dontUseFlagsForMetaCharacters': 3}, hooks=hooks, exclude=excl, timeout_ms=90000)))
+                jobs.append(('regex/operators.VerifC02FlagGroupsShaped', dict(fixlen={'p': a, 'b': b, 'q': c}, params={'opener': opn, 'opener2': -1, 'close': cl}, unwind=60,
+                                                                             unwind_by_func={'dontUseFlagsForMetaCharacters': 3}, hooks=hooks, exclude=excl, timeout_ms=90000, unwind_is_violation=term)))
+    # (texts with TWO openers - e.g. two escaped look-alikes, 11+ bytes - were tried with 1 free byte between the parts:
+    #  the jobs neither finish in 500 s nor stay below the memory limit; they are outside the bound, see DESIGN section 8)
     return jobs, {'openers': ['(?i:', '(?-s:', '(?i)', '\\(?i:', '\\(?i)', '(?:'], 'openers_run': list(openers), 'free_text_lens(p,b,q)': [list(x) for x in lens], 'closing_paren': [0, 1]}
 
 
